@@ -46,7 +46,7 @@ class SelectFdEvent : public FdEvent {
     virtual Loop* getLoop() const override;
 
   public:
-    static void OnEventCallback(bool is_readable, bool is_writable, bool is_except, SelectFdSharedData *data);
+    static void OnEventCallback(bool is_readable, bool is_writable, bool is_except, SelectLoop *loop, int fd);
 
   protected:
     void onEvent(short events);
